@@ -26,6 +26,9 @@ type c19Case struct {
 	// pattern was pushed; Pol: an accept-everything push policy is installed (the pushes take that path)
 	Prior int  `json:"values_pushed_and_defragmented_before,omitempty"`
 	Pol   bool `json:"push_policy,omitempty"`
+	// TNil: 1 / 2 = the non-nil elements at even / odd positions are typed nil pointers ((*int)(nil), a nil
+	// *Stack ...): values like any other, no gaps
+	TNil int `json:"typed_nil_pointer_elements,omitempty"`
 }
 
 func (cs c19Case) pattern() string {
@@ -206,6 +209,14 @@ func c19Run(c *Ctx, cs c19Case, count bool) {
 	if cs.Long != "" {
 		vals = longValues(cs.Long)
 	}
+	if cs.TNil > 0 {
+		tn := []any{(*int)(nil), (*stackage.Stack)(nil), (*string)(nil), (*StackAlias)(nil), (*eqStruct)(nil)}
+		for i := range vals {
+			if vals[i] != nil && i%2 == cs.TNil-1 {
+				vals[i] = tn[(i/2)%len(tn)]
+			}
+		}
+	}
 	target := newStackKind(cs.Kind)
 	if cs.Neg {
 		target.SetNegativeIndices(true)
@@ -313,6 +324,24 @@ func c19Run(c *Ctx, cs c19Case, count bool) {
 		if recv.Err() != nil {
 			c.Violation("nested("+cs.Place+"):parent-err-set", fmt.Sprintf("the receiver reports Err()=%v after Defrag although only a nested read-only stack carried an (earlier, unrelated) error: %s", recv.Err(), jsonString(cs)), cs, size)
 		}
+		// ... and once the flag is cleared, the next Defrag of the parent compacts it like any other
+		target.SetReadOnly(false)
+		if cs.Limit > 0 {
+			p = noPanic(func() { recv.Defrag(cs.Limit) })
+		} else {
+			p = noPanic(func() { recv.Defrag() })
+		}
+		lim := cs.Limit
+		if lim <= 0 {
+			lim = 50
+		}
+		if p != "" {
+			c.Violation("panic:"+cs.Place, fmt.Sprintf("the second Defrag (nested stack no longer read-only) panicked on %s: %s", jsonString(cs), p), cs, size)
+		} else if pin, pinErr := pinnedDefrag(append([]any{}, vals...), lim, cs.Neg, cs.Fwd, cs.PreErr); sameList(pin, want) && !pinErr {
+			if got2 := contents(target); !sameList(got2, want) {
+				c.Violation("nested("+cs.Place+"):not-compacted-after-read-only-cleared", fmt.Sprintf("the nested stack was read-only during one Defrag of the parent (and left alone); with the flag cleared the next Defrag of the parent leaves it at %s, want %s (%s)", showList(got2), showList(want), jsonString(cs)), cs, size)
+			}
+		}
 		c.Outcome("read-only-child")
 		return
 	}
@@ -413,16 +442,16 @@ func c19Cases(c *Ctx) []c19Case {
 					if (opt.neg || opt.fwd) && (lim != 0 || n > maxLen-2) {
 						continue
 					}
-					out = append(out, c19Case{n, mask, lim, opt.neg, opt.fwd, "top", "LIST", false, "", false, 0, false})
+					out = append(out, c19Case{n, mask, lim, opt.neg, opt.fwd, "top", "LIST", false, "", false, 0, false, 0})
 					if mask != (1<<n)-1 && !opt.neg && !opt.fwd && (lim == 0 || lim == 3) && n <= nestLen+2 {
-						out = append(out, c19Case{n, mask, lim, false, false, "top", "LIST", true, "", false, 0, false})
+						out = append(out, c19Case{n, mask, lim, false, false, "top", "LIST", true, "", false, 0, false, 0})
 					}
 				}
 				if n <= nestLen && (lim == 0 || lim == 3) {
 					for _, pl := range []string{"top-mutex", "top-decorated", "in-stack", "alias", "ptr-alias", "in-cond", "in-cond-only", "in-cond-alias", "deep", "in-stack-parent-options", "in-cond-nonesting-parent"} {
-						out = append(out, c19Case{n, mask, lim, false, false, pl, "AND", false, "", false, 0, false})
+						out = append(out, c19Case{n, mask, lim, false, false, pl, "AND", false, "", false, 0, false, 0})
 						if mask != (1<<n)-1 && n <= 4 && lim == 0 {
-							out = append(out, c19Case{n, mask, lim, false, false, pl, "AND", true, "", false, 0, false})
+							out = append(out, c19Case{n, mask, lim, false, false, pl, "AND", true, "", false, 0, false, 0})
 						}
 					}
 				}
@@ -463,6 +492,27 @@ func c19Cases(c *Ctx) []c19Case {
 			}
 		}
 	}
+	// a nested stack that is read-only during one Defrag of its parent and writable during the next
+	for n := 1; n <= 6; n++ {
+		for mask := 0; mask < 1<<n; mask++ {
+			for _, pl := range []string{"in-stack", "in-cond", "deep", "alias", "ptr-alias", "in-cond-alias"} {
+				out = append(out, c19Case{Len: n, Mask: mask, Place: pl, Kind: "AND", ChildRO: true}, c19Case{Len: n, Mask: mask, Place: pl, Kind: "AND", ChildRO: true, Neg: true, Limit: 13})
+			}
+		}
+	}
+	// typed nil pointers among the values: they are values (C08, C15), not gaps
+	for n := 1; n <= 6; n++ {
+		for mask := 1; mask < 1<<n; mask++ {
+			for tn := 1; tn <= 2; tn++ {
+				for _, pl := range []string{"top", "in-stack", "in-cond", "ptr-alias"} {
+					if pl != "top" && n > nestLen {
+						continue
+					}
+					out = append(out, c19Case{Len: n, Mask: mask, Place: pl, Kind: "AND", TNil: tn}, c19Case{Len: n, Mask: mask, Place: pl, Kind: "AND", TNil: tn, Neg: true, Fwd: true, Limit: 13})
+				}
+			}
+		}
+	}
 	for i := range out {
 		out[i].Kind = kindNames[i%5] // every kind is sampled evenly
 	}
@@ -487,7 +537,7 @@ func c19Cases(c *Ctx) []c19Case {
 				if pl == "top" {
 					kind = "LIST"
 				}
-				out = append(out, c19Case{0, 0, lim, false, false, pl, kind, false, long, false, 0, false})
+				out = append(out, c19Case{0, 0, lim, false, false, pl, kind, false, long, false, 0, false, 0})
 			}
 		}
 	}
